@@ -400,6 +400,33 @@ def run_format(signed, bits, frac, acc, floats=None):
         if bad:
             acc.violation(dict(kind="array_inverse", bits=bits), dict(fmt),
                           "array fix->float->fix: %r" % (bad[:3],))
+        # fix -> float on the extreme words of both integer types of this
+        # width (the sign comes from the array's dtype alone)
+        for dt_signed in (False, True):
+            dt = np.dtype("%s%d" % ("int" if dt_signed else "uint", bits))
+            if dt_signed:
+                words = [-(1 << (bits - 1)), -(1 << (bits - 1)) + 1, -2, -1,
+                         0, 1, (1 << (bits - 1)) - 1]
+            else:
+                off = (1 << 11) if bits == 64 else 1
+                words = [0, 1, (1 << (bits - 1)) - 1, 1 << (bits - 1),
+                         (1 << (bits - 1)) + off, (1 << bits) - 1,
+                         (1 << bits) - off]
+            acc.evaluations += len(words)
+            try:
+                with warnings.catch_warnings():
+                    warnings.simplefilter("ignore")
+                    fw = aback(np.array(words, dtype=dt))
+                badw = [(k, float(f)) for k, f in zip(words, fw)
+                        if float(f) != float(k) * 2.0 ** -frac]
+            except Exception as e:
+                badw = [repr(e)]
+            if badw:
+                acc.violation(dict(kind="array_fix_to_float", bits=bits,
+                                   dtype=str(dt)), dict(fmt),
+                              "NumpyFixToFloatConverter(%d) on %s words: %r "
+                              "(word, float) are not word / 2^n_frac"
+                              % (frac, dt, badw[:3]))
     acc.sample(dict(fmt, floats=len(fl), first=fl[0], last=fl[-1]))
 
 
